@@ -8,7 +8,9 @@
 (***************************************************************************)
 EXTENDS Naturals, FiniteSets, TLC, Json
 
-ClientIds == {"trusted", "other_ca", "self_signed", "none"}
+\* "borrowed_chain": an untrusted certificate with its own key, followed in the presented chain by
+\* somebody else's trusted (public) certificate for which the peer has no key
+ClientIds == {"trusted", "other_ca", "self_signed", "none", "borrowed_chain_self", "borrowed_chain_other"}
 ServerIds == {"trusted", "other_ca"}
 
 VARIABLES cid, sid,        \* identities presented
@@ -17,7 +19,7 @@ VARIABLES cid, sid,        \* identities presented
 hvars == <<cid, sid, state, via>>
 
 HInit == cid \in ClientIds /\ sid \in ServerIds /\ state = "start" /\ via \in {"library", "raw"}
-             /\ (cid = "none" => via = "raw")       \* the client builder cannot omit the certificate
+             /\ (cid \in {"none", "borrowed_chain_self", "borrowed_chain_other"} => via = "raw")   \* not expressible with the client builder
 
 \* the client checks the server's chain against the CA it was configured with
 ServerCertCheck == /\ state = "start"
